@@ -46,16 +46,18 @@ EventOK(e, lcf) ==
         /\ \A i \in ps : \A c \in {PatLetters(es[i].t)[k] : k \in 1..Len(PatLetters(es[i].t))} : lcf[c] = c
         /\ \A i \in xs : \A c \in {ExcLetters(es[i].t)[k] : k \in 1..Len(ExcLetters(es[i].t))} : lcf[c] = c
 
+\* Tried in this order: a deviation that changes WHICH entries exist (list splitting, deleted
+\* exception) is the more fundamental explanation than the way a surviving entry is scored.
 DevOrder == << {},
-               {"ExceptionAsScore67"}, {"LaterPatternReplacesException"}, {"ExceptionsSplitOnLinesOnly"},
-               {"ExceptionAsScore67", "LaterPatternReplacesException"},
-               {"ExceptionAsScore67", "ExceptionsSplitOnLinesOnly"},
+               {"ExceptionsSplitOnLinesOnly"}, {"LaterPatternReplacesException"}, {"ExceptionAsScore67"},
                {"LaterPatternReplacesException", "ExceptionsSplitOnLinesOnly"},
+               {"ExceptionAsScore67", "ExceptionsSplitOnLinesOnly"},
+               {"ExceptionAsScore67", "LaterPatternReplacesException"},
                {"ExceptionAsScore67", "LaterPatternReplacesException", "ExceptionsSplitOnLinesOnly"} >>
-DevKey == << "", "ExceptionAsScore67", "LaterPatternReplacesException", "ExceptionsSplitOnLinesOnly",
-             "ExceptionAsScore67+LaterPatternReplacesException",
-             "ExceptionAsScore67+ExceptionsSplitOnLinesOnly",
+DevKey == << "", "ExceptionsSplitOnLinesOnly", "LaterPatternReplacesException", "ExceptionAsScore67",
              "LaterPatternReplacesException+ExceptionsSplitOnLinesOnly",
+             "ExceptionAsScore67+ExceptionsSplitOnLinesOnly",
+             "ExceptionAsScore67+LaterPatternReplacesException",
              "ExceptionAsScore67+LaterPatternReplacesException+ExceptionsSplitOnLinesOnly" >>
 Explain(e, lw, got) ==
   IF IsPlain(e) THEN "mismatch"
